@@ -78,7 +78,7 @@ Theorem C14_gff_row_roundtrip : forall r, wf_row r -> feature_from_line (render_
 Proof. exact gff_row_roundtrip. Qed.
 Print Assumptions C14_gff_row_roundtrip.
 (* a FEATURES block written from any features (any key that does not begin with a slash - 5'UTR and -10_signal included -, any
-   location text without blanks, one or more one-line qualifiers /k=v or /k="v") is read back as exactly those features with
+   location text without blanks, on one line or continued over any number of further lines (repair D23), one or more one-line qualifiers /k=v or /k="v") is read back as exactly those features with
    exactly those qualifiers: no qualifier moves to a neighbouring feature *)
 Theorem C14_genbank_features_roundtrip : forall fs, fs <> [] -> Forall wf_feat fs -> parse_features (render_features fs) = Ok (map parsed fs).
 Proof. exact features_roundtrip. Qed.
@@ -89,3 +89,48 @@ Theorem C14_genbank_origin_roundtrip : forall lines : list (list (list N * list 
   parse_origin (map (fun l => concat (map (fun p => fst p ++ snd p) l)) lines) = concat (map (fun l => concat (map snd l)) lines).
 Proof. exact parse_origin_lines. Qed.
 Print Assumptions C14_genbank_origin_roundtrip.
+
+(* before repair D23 a location that continues on a second line was cut at the end of the first *)
+Theorem C14_wrapped_location_old_refuted :
+  exists f, wf_feat f /\ parse_features_old (render_features [f]) = Ok [{| gf_key := fk f; gf_loc := floc f; gf_info := gf_info (parsed f) |}] /\
+            floc f <> full_loc f /\ parse_features (render_features [f]) = Ok [parsed f].
+Proof. exact wrapped_location_old_refuted. Qed.
+Print Assumptions C14_wrapped_location_old_refuted.
+
+From GF Require Import FastaLayout GenbankFile GenbankFileProofs GffFile GffFileProofs.
+(* a whole GenBank flat file, section by section: every section (a line that begins with a capital letter, then lines that do
+   not) is handed, in file order, to the switch on its first word *)
+Theorem C14_genbank_sections : forall secs, Forall sec_ok secs -> read_genbank_lines (flatten secs) = dispatch_all secs gb_empty.
+Proof. exact read_sections. Qed.
+Print Assumptions C14_genbank_sections.
+(* ... so a file made of any other sections (LOCUS, DEFINITION, REFERENCE ... with any continuation lines), then FEATURES written
+   from any well-formed features, then ORIGIN (any number of trailing blanks) with the sequence cut into numbered chunks and the
+   closing // line, is read as exactly those features and exactly that sequence *)
+Theorem C14_genbank_file_read : forall pre fs n olines,
+  Forall sec_ok pre -> Forall other_name pre -> fs <> [] -> Forall wf_feat fs ->
+  Forall (Forall piece_ok) olines -> Forall body_line_ok (map origin_line olines) ->
+  read_genbank_lines (flatten (pre ++ [features_section fs; origin_section n olines])) =
+  Ok {| gb_features := Some (map parsed fs); gb_origin := Some (concat (map (fun l => concat (map snd l)) olines)) |}.
+Proof. exact genbank_file_read. Qed.
+Print Assumptions C14_genbank_file_read.
+(* a blank line, wherever it stands, changes nothing; and the lines are those between LF or CRLF line ends, in any mixture *)
+Theorem C14_genbank_blank_line_ignored : forall l1 l2, read_genbank_lines (l1 ++ [] :: l2) = read_genbank_lines (l1 ++ l2).
+Proof. exact blank_line_ignored. Qed.
+Print Assumptions C14_genbank_blank_line_ignored.
+Theorem C14_genbank_line_ends : forall lines : list (list N * bool),
+  Forall (fun le => ok_line (fst le)) lines -> read_genbank (FastaLayout.render lines) = read_genbank_lines (map fst lines).
+Proof. exact genbank_file_bytes_read. Qed.
+Print Assumptions C14_genbank_line_ends.
+(* a whole GFF3 file: ##gff-version 3, any ##sequence-region lines, one or more well-formed rows, ##FASTA and any sequence lines
+   is read as that version, those regions, those rows field by field, and what the list reader of C16 makes of the sequence lines *)
+Theorem C14_gff_file_read : forall regs rows flines,
+  Forall wf_region regs -> rows <> [] -> Forall wf_row rows ->
+  read_gff_lines (version_line :: map region_line regs ++ map render_row rows ++ bs "##FASTA" :: flines) =
+  bind (fasta_of flines) (fun fa =>
+    Ok {| gff_version := bs "3"; gff_regions := map region_of regs; gff_features := map feat_of rows; gff_fasta := fa |}).
+Proof. exact gff_file_read. Qed.
+Print Assumptions C14_gff_file_read.
+Theorem C14_gff_line_ends : forall lines : list (list N * bool),
+  Forall (fun le => ok_line (fst le)) lines -> read_gff (FastaLayout.render lines) = read_gff_lines (map fst lines).
+Proof. exact gff_file_bytes_read. Qed.
+Print Assumptions C14_gff_line_ends.
